@@ -248,9 +248,31 @@ pub fn run(ctx: &Ctx) -> Report {
 		slots[si].beat.fetch_add(1, Ordering::Relaxed);
 		r
 	});
+	total.merge(r);
+	// long media types and data (offsets that do not fit a byte)
+	{
+		let mut r = Report::new();
+		let mut vs = Vec::new();
+		for n in (244usize..=262).chain([300, 511, 512, 513, 65530, 65536]) {
+			for b64 in ["", ";base64"] {
+				for data in ["", "QQ==", "x"] {
+					let t = format!("data:{}{}{},{}", "a/".repeat(n / 2), "b".repeat(n % 2), b64, data).into_bytes();
+					r.states += 1;
+					r.evaluations += case(&t, refs, &mut vs);
+					if DataUrl::new(&t).is_ok() {
+						r.count("accepted", 1);
+					}
+					for v in vs.drain(..) {
+						r.violate(v);
+					}
+				}
+			}
+		}
+		total.count("long_media_type_inputs", r.states);
+		total.merge(r);
+	}
 	done.store(true, Ordering::Relaxed);
 	let _ = wd.join();
-	total.merge(r);
 	total.distinct_nontrivial = total.states;
 	total.transitions = total.evaluations;
 	total.traces = total.states;
